@@ -1,7 +1,9 @@
 //! Property checks and the shared finishing protocol (minimised replay, fresh-process
 //! confirmation, known findings).
+pub mod c03;
 pub mod c13;
 pub mod common;
+pub mod gcsearch;
 
 use crate::report::{known_for, load_known_findings, read_json, verif_dir, write_replay, Evidence, Tier, Verdict, Violation};
 use serde_json::Value;
@@ -16,12 +18,21 @@ pub struct PropertyDef {
 }
 
 pub fn registry() -> Vec<PropertyDef> {
-    vec![PropertyDef {
+    vec![
+        PropertyDef {
+            id: "C03",
+            run: c03::run,
+            replay: c03::replay,
+            level: "exploration",
+        },
+        PropertyDef {
         id: "C13",
         run: c13::run,
         replay: c13::replay,
         level: "fault_enumeration",
     }]
+    .into_iter()
+    .collect()
 }
 
 pub fn find(id: &str) -> Option<PropertyDef> {
